@@ -71,6 +71,11 @@ Theorem C02_core_registry_cfg_stable : forall (FO : FloatOps), reg_cfg_stable (m
 Proof. exact @core_cfg_stable. Qed.
 Print Assumptions C02_core_registry_cfg_stable.
 
+(* ... and none of the FULL registry (all 280 names): so every theorem above applies to the model's interpreter *)
+Theorem C02_full_registry_cfg_stable : forall (FO : FloatOps), reg_cfg_stable full_registry.
+Proof. exact @full_cfg_stable. Qed.
+Print Assumptions C02_full_registry_cfg_stable.
+
 (* the instrumented loop used by the correspondence suite is the run loop, and its count is the
    number of single steps of the accounting *)
 Theorem C02_counted_loop_agrees : forall p reg clock fuel c n w s,
